@@ -11,21 +11,21 @@ META = {
     "C01": ("election-run", "exploration", "4 C01", "generated elections vs reference aggregation (differential oracle)", "reference categorisation + aggregation of the generated feed compared with every returned table"),
     "C02": ("election-run", "exploration", "4 C02", "generated elections; unit-table group sums; bootstrap reference aggregator from retained draws", "sums of the returned unit table per group; per-group loop over the model's retained draws"),
     "C03": ("election-run", "exploration", "4 C03", "generated hard-case elections; floor / finiteness / pass-through invariants", "invariants over every unit and aggregate row"),
-    "C04": ("component + Monte Carlo", "exploration", "4 C04", "generated calibration sets vs reference conformal correction; Monte-Carlo coverage with exact binomial test", "reference correction from the statement; binomial test at 1e-6"),
-    "C05": ("election-run", "exploration", "4 C05", "generated elections without covariates vs exact-rational weighted median closed form", "exact rational weighted median"),
-    "C06": ("grid + election-run + model-level", "exploration", "4 C06", "exhaustive rank grid; generated bootstrap runs and generated draw matrices; ordering/nesting/range invariants", "ordering, nesting, range invariants"),
+    "C04": ("component + Monte Carlo", "exploration", "4 C04", "generated calibration sets vs reference conformal correction; identical not-yet-reporting twins of the calibration units (metamorphic); Monte-Carlo coverage with exact binomial test", "reference correction from the statement; a calibration unit is scored against the bounds its twin is given; binomial test at 1e-6"),
+    "C05": ("election-run", "exploration", "4 C05", "generated elections without covariates (baselines also through the config's baseline_pointer) vs exact-rational weighted median closed form", "exact rational weighted median"),
+    "C06": ("grid + election-run + model-level", "exploration", "4 C06", "exhaustive rank grid; generated bootstrap runs (also with the margin extrapolation on generated version histories) and generated draw matrices; ordering/nesting/range invariants", "ordering, nesting, range invariants"),
     "C07": ("model-level + election-run", "exploration", "4 C07", "generated draw matrices x call/stop subsets vs decision table; metamorphic no-list run", "decision table from the statement; bit-identical untouched rows"),
     "C08": ("stateful + model-level + e2e table", "exploration", "4 C08", "Hypothesis rule-based state machine over aggregate histories; generated draw matrices vs range/composition oracle; client summary table vs per-level model estimates", "summary equals canonical-history reference; range/ordering/composition; table carries each level's own estimate"),
     "C09": ("component + e2e slice", "exploration", "4 C09", "generated feeds through get_units vs reference categorisation with precedence", "reference categorisation"),
     "C10": ("paired election-runs + historical harness", "exploration", "4 C10", "metamorphic pairs differing in one excluded unit's counts; bitwise comparison; observed inputs of the outlier-detection regressions", "rows outside the perturbed unit/groups bit-identical; no excluded unit among the outlier models' inputs"),
     "C11": ("paired election-runs", "exploration", "4 C11", "metamorphic pairs (feed, feed + one unexpected row); exact additivity", "exact +v additivity and ratio formulas"),
     "C12": ("stateful + subprocess", "exploration", "4 C12", "Hypothesis rule-based state machine over call histories (separate elections and one election with several requests sharing frame objects); fresh processes under different hash seeds; repeated national summaries", "every result of a request equals its result on a fresh client with fresh frames"),
-    "C13": ("paired election-runs", "exploration", "4 C13", "metamorphic pairs of requests (subset/superset/permutation); bitwise comparison of common cells", "common cells bit-identical"),
+    "C13": ("paired election-runs", "exploration", "4 C13", "metamorphic pairs of requests (subset/superset/permutation; also with per-county fixed effects); bitwise comparison of common cells", "common cells bit-identical"),
     "C14": ("grid + election-run", "exploration", "4 C14", "exhaustive (alpha, n) band on the real split + far-field arithmetic; generated elections with exact n", "gate iff; split validity"),
     "C15": ("election-run (large)", "exploration", "4 C15", "generated group structures (two- and three-level lists) vs fallback-source reference and bounds formula", "reference fallback source (own / parent / ... / all) and normal-quantile formula"),
-    "C16": ("component + e2e slice", "exploration", "4 C16", "generated level assignments through Featurizer vs reference design matrix; relabelling metamorphic", "reference design matrix"),
+    "C16": ("component + e2e slice", "exploration", "4 C16", "generated level assignments through Featurizer vs reference design matrix; relabelling metamorphic; observed fit / prediction matrices of the conformal and bootstrap models", "reference design matrix; clause-by-clause check of the observed matrices"),
     "C17": ("component", "exploration", "4 C17", "generated version histories vs exact-rational interpolation reference", "exact rational interpolation"),
-    "C18": ("enumerated configs + recording S3", "fault_enumeration", "4 C18", "enumeration of save_output x environment x estimator x gate outcome with a recording S3 client", "expected put/file set and order; key grammar"),
+    "C18": ("enumerated configs + recording S3", "fault_enumeration", "4 C18", "enumeration of save_output x environment (local, non-local with APP_ENV equal to / different from DATA_ENV) x estimator x gate outcome with a recording S3 client", "expected put/file set and order; key grammar"),
     "C19": ("scripted S3 service", "fault_enumeration", "4 C19", "exhaustive small paging space + generated listings/windows/fault sets against a scripted S3 service", "window filter reference; per-version stamping"),
     "C20": ("injected solver faults", "fault_enumeration", "4 C20", "fault injection at every fit position x both failure kinds; differential against the un-faulted run", "retry call equals failed call except normalize_weights; run completes"),
 }
